@@ -145,6 +145,8 @@ def check_case(case):
                                  observed=[ha, hb], expected="equal hashes",
                                  detail=dict(minimal=[mv, mw]))]
             elif law == "disc":
+                if V.same(case["v"], case["w"]):  # (replay of a pair that is no longer a disc case)
+                    return []
                 a, b = V.build(case["v"], d / "a"), V.build(case["w"], d / "b")
                 ha, hb = H(a), H(b)
                 if ha == hb:
